@@ -408,7 +408,9 @@ func (w *walker) emit(ev event) {
 	w.events = append(w.events, ev)
 }
 
-func (w *walker) isRecv(id *ast.Ident) bool { return id != nil && id.Name == w.recv && w.recv != "" && w.recv != "_" }
+func (w *walker) isRecv(id *ast.Ident) bool {
+	return id != nil && id.Name == w.recv && w.recv != "" && w.recv != "_"
+}
 func (w *walker) isTainted(id *ast.Ident) bool {
 	return id != nil && id.Obj != nil && w.tainted[id.Obj]
 }
